@@ -194,6 +194,9 @@ theorem reenter_phase (s : S) (p : Phase) : (reenter s p).phase = p := by
 theorem listen_dsResetStream (c : Cfg) (s : S) (h : listenOk s.streams = true) : listenOk (dsResetStream c s).streams = true := by
   unfold dsResetStream; exact listen_cleanStream c _ h
 
+theorem abandonRetry_streams (s : S) : (abandonRetry s).streams = s.streams := by
+  unfold abandonRetry; split <;> rfl
+
 theorem listen_peTail (c : Cfg) (s : S) (e : Bool) (h : listenOk s.streams = true) :
     listenOk (finishOf (peTail c s e)).streams = true := by
   unfold peTail
@@ -202,10 +205,10 @@ theorem listen_peTail (c : Cfg) (s : S) (e : Bool) (h : listenOk s.streams = tru
   · split
     · simp only []
       split
-      · simp only [finishOf, reenter_streams]; exact h
+      · simp only [finishOf, reenter_streams, abandonRetry_streams]; exact h
       · split
-        · simp only [finishOf, reenter_streams]; exact h
-        · simp only [finishOf, reenter_streams]; exact h
+        · simp only [finishOf, reenter_streams, abandonRetry_streams]; exact h
+        · simp only [finishOf, reenter_streams, abandonRetry_streams]; exact h
     · split
       · simp only [finishOf, reenter_streams]; exact h
       · split <;> (simp only [finishOf, reenter_streams]; exact h)
@@ -283,9 +286,14 @@ theorem listen_chooseHost (c : Cfg) (s : S) : (chooseHost c s).streams = s.strea
   split <;> (try split) <;> simp [sendHijack, orFlag]
 
 theorem listen_doRetry (c : Cfg) (s : S) (h : listenOk s.streams = true) : listenOk (doRetry c s).streams = true := by
-  unfold doRetry
+  rw [doRetry_eq]
   split
-  · simpa [sendHijack] using h
+  · exact h
+  split
+  · simpa [upOnResetStream] using h
+  unfold doRetryBody
+  split
+  · split <;> simpa [sendHijack] using h
   · simp only
     have h1 := listen_upAppendHeaders c { s with up := some none, setupRetry := false } (!c.hasData && !c.hasTrailers) h
     generalize upAppendHeaders c { s with up := some none, setupRetry := false } (!c.hasData && !c.hasTrailers) = a at h1
@@ -475,6 +483,17 @@ theorem inv2_async (c : Cfg) (ar aq : Nat) (s : S) (l : Label) (hl : l ≠ .work
     Inv2 c (step c s l) := by
   cases l with
   | work => exact absurd rfl hl
+  | gtInSetup b =>
+    simp only [step, gtInSetup]
+    split
+    · exact h2
+    · rename_i hcond
+      simp only [Bool.not_eq_true', Bool.not_eq_false, Bool.and_eq_true, backoff, beq_iff_eq] at hcond
+      refine ⟨h2.listen, fun how hq => ?_⟩
+      exfalso
+      rw [quietS_iff] at hq
+      have := hq.2.1
+      simp [hcond.1.2, awaiting] at this
   | lateResp k d t =>
     simp only [step]
     rw [lateBackoff_noop c ar aq s k d t h]
@@ -571,8 +590,6 @@ theorem inv2_async (c : Cfg) (ar aq : Nat) (s : S) (l : Label) (hl : l ≠ .work
       · rename_i hcond
         simp only [Bool.or_eq_true, Bool.not_eq_true', not_or, Bool.not_eq_false] at hcond
         obtain ⟨⟨hreal, hlive⟩, hcounted⟩ := hcond
-        split
-        · exact h2
         · have hlis := listening_of_live s k st h2.listen hk hlive
           rw [hlis]
           simp only [if_true]
@@ -703,10 +720,13 @@ theorem finish_quiet (c : Cfg) (s : S) (how : c.oneway = false) (hcl : s.cleaned
           rw [not_quiet_reenter _ _ (by decide)] at hq; cases hq
         · rw [if_neg hp] at hq
           have hp : g.phase = .UpFilter := by simpa using hp
+          have hph : (abandonRetry { g with direct := false, rs := none, retries := (rsReset c g).retries }).phase = g.phase := by
+            unfold abandonRetry; split <;> rfl
+          generalize abandonRetry { g with direct := false, rs := none, retries := (rsReset c g).retries } = y at hq hph
           simp only [finishOf] at hq
           rw [quietS_iff] at hq
           have := hq.2.1
-          simp [hp, Phase.next, awaiting] at this
+          simp [hph, hp, Phase.next, awaiting] at this
       · rw [if_neg hdi] at hq ⊢
         by_cases hsr : (g.up.isSome && g.setupRetry) = true
         · rw [if_pos hsr] at hq
@@ -766,10 +786,21 @@ theorem receiveHeaders_quiet (c : Cfg) (s : S) (eos : Bool) (how : c.oneway = fa
   · simp only [if_true] at hq ⊢
     exact upAppendHeaders_quiet c s _ how hpd hsr hq
 
-theorem doRetry_quiet (c : Cfg) (s : S) (how : c.oneway = false) (hpd : s.procDone = false)
+theorem doRetry_quiet (c : Cfg) (s : S) (how : c.oneway = false) (hpd : s.procDone = false) (hsr : s.setupRetry = false)
     (hq : (doRetry c s).upReset = false ∧ (doRetry c s).downReset = false ∧ (doRetry c s).direct = false) :
     0 < liveCount (doRetry c s).streams := by
-  unfold doRetry at hq ⊢
+  rw [doRetry_eq] at hq ⊢
+  by_cases hdt : s.direct = true
+  · rw [if_pos hdt] at hq
+    have := hq.2.2; rw [hdt] at this; cases this
+  rw [if_neg hdt] at hq ⊢
+  by_cases hx : (s.globalExpired && s.up.isSome) = true
+  · -- the global timeout is raised: an upstream reset is pending
+    rw [if_pos hx] at hq
+    have := hq.1
+    simp [upOnResetStream, hsr] at this
+  rw [if_neg hx] at hq ⊢
+  unfold doRetryBody at hq ⊢
   by_cases hg : s.hostsGone = true
   · rw [if_pos hg] at hq
     have := hq.2.2
@@ -778,15 +809,15 @@ theorem doRetry_quiet (c : Cfg) (s : S) (how : c.oneway = false) (hpd : s.procDo
     simp only at hq ⊢
     -- the data / trailers / timer steps do not touch the streams and the reset flags
     have key : ∀ a : S,
-        (({ (if (retryArmsGlobalWhenUnsent && !(if c.hasTrailers = true then upAppendTrailers (if c.hasData = true then upAppendData a (!c.hasTrailers) else a) else (if c.hasData = true then upAppendData a (!c.hasTrailers) else a)).reqSent) = true
+        (({ (if (!(hasTimerObj (if c.hasTrailers = true then upAppendTrailers (if c.hasData = true then upAppendData a (!c.hasTrailers) else a) else (if c.hasData = true then upAppendData a (!c.hasTrailers) else a)))) = true
             then onUpstreamRequestSent c (if c.hasTrailers = true then upAppendTrailers (if c.hasData = true then upAppendData a (!c.hasTrailers) else a) else (if c.hasData = true then upAppendData a (!c.hasTrailers) else a))
             else setupPerReqTimeout c (if c.hasTrailers = true then upAppendTrailers (if c.hasData = true then upAppendData a (!c.hasTrailers) else a) else (if c.hasData = true then upAppendData a (!c.hasTrailers) else a)))
             with reqSent := true, recvDone := true } : S).streams = a.streams) ∧
-        (({ (if (retryArmsGlobalWhenUnsent && !(if c.hasTrailers = true then upAppendTrailers (if c.hasData = true then upAppendData a (!c.hasTrailers) else a) else (if c.hasData = true then upAppendData a (!c.hasTrailers) else a)).reqSent) = true
+        (({ (if (!(hasTimerObj (if c.hasTrailers = true then upAppendTrailers (if c.hasData = true then upAppendData a (!c.hasTrailers) else a) else (if c.hasData = true then upAppendData a (!c.hasTrailers) else a)))) = true
             then onUpstreamRequestSent c (if c.hasTrailers = true then upAppendTrailers (if c.hasData = true then upAppendData a (!c.hasTrailers) else a) else (if c.hasData = true then upAppendData a (!c.hasTrailers) else a))
             else setupPerReqTimeout c (if c.hasTrailers = true then upAppendTrailers (if c.hasData = true then upAppendData a (!c.hasTrailers) else a) else (if c.hasData = true then upAppendData a (!c.hasTrailers) else a)))
             with reqSent := true, recvDone := true } : S).upReset = a.upReset) ∧
-        (({ (if (retryArmsGlobalWhenUnsent && !(if c.hasTrailers = true then upAppendTrailers (if c.hasData = true then upAppendData a (!c.hasTrailers) else a) else (if c.hasData = true then upAppendData a (!c.hasTrailers) else a)).reqSent) = true
+        (({ (if (!(hasTimerObj (if c.hasTrailers = true then upAppendTrailers (if c.hasData = true then upAppendData a (!c.hasTrailers) else a) else (if c.hasData = true then upAppendData a (!c.hasTrailers) else a)))) = true
             then onUpstreamRequestSent c (if c.hasTrailers = true then upAppendTrailers (if c.hasData = true then upAppendData a (!c.hasTrailers) else a) else (if c.hasData = true then upAppendData a (!c.hasTrailers) else a))
             else setupPerReqTimeout c (if c.hasTrailers = true then upAppendTrailers (if c.hasData = true then upAppendData a (!c.hasTrailers) else a) else (if c.hasData = true then upAppendData a (!c.hasTrailers) else a)))
             with reqSent := true, recvDone := true } : S).downReset = a.downReset) := by
@@ -976,9 +1007,14 @@ theorem inv2_work (c : Cfg) (ar aq : Nat) (s : S) (h : Inv c ar aq s) (h2 : Inv2
   · -- Retry: the next NewStream
     rename_i hp
     have hcl' : (doRetry c s).cleaned = false := by
-      unfold doRetry
+      rw [doRetry_eq]
       split
-      · simp [sendHijack, hcl]
+      · exact hcl
+      split
+      · simp [upOnResetStream, hcl]
+      unfold doRetryBody
+      split
+      · split <;> simp [sendHijack, hcl]
       · simp only
         have a1 : ∀ x : S, x.cleaned = false → ∀ eos, (upAppendHeaders c x eos).cleaned = false := by
           intro x hx eos; unfold upAppendHeaders; split
@@ -995,7 +1031,7 @@ theorem inv2_work (c : Cfg) (ar aq : Nat) (s : S) (h : Inv c ar aq s) (h2 : Inv2
         split <;> simpa [onUpstreamRequestSent, setupPerReqTimeout] using h3
     obtain ⟨f1, f2, f3, f4⟩ := finish_quiet c _ how hcl' hq
     rw [f1]
-    exact doRetry_quiet c s how hpd ⟨f2, f3, f4⟩
+    exact doRetry_quiet c s how hpd hsr ⟨f2, f3, f4⟩
   · -- WaitNotify
     rename_i hp
     split at hq
